@@ -7,43 +7,51 @@ From W Require Import model.Base model.Engine model.EngineKnown spec.Queue proof
   proofs.EngineNorm proofs.EngineNormW proofs.EngineRaw proofs.EngineRestart proofs.EngineRestartR proofs.EngineRestartW proofs.EngineReopen.
 From Coq Require Import ZArith ZifyBool ZifyN ZifyNat.
 
-(* checked along the run: every restart finds the state outside the known classes *)
+(* checked along the run: no restart happens in a state with block-id drift — the only known
+   class left since the provisional persist on an empty writer block was repaired *)
 Fixpoint outside_known (v : env) (s : st) (ops : list op) : bool :=
   match ops with
   | [] => true
-  | o :: r => (match o with OReopen => negb (restart_known (v_cfg v) s) | _ => true end)
+  | o :: r => (match o with OReopen => negb (id_drift (v_cfg v) s) | _ => true end)
               && outside_known v (fst (step v s o)) r
   end.
 
 (* one step of a history with restarts *)
-Lemma G_step_r c be s g B Bb o : cfg_ok c -> G c s g B Bb ->
-  (match o with OReopen => restart_known c s = false | _ => True end) ->
+Lemma G_step_r c be s g B Bb o : cfg_ok c -> G c s g B Bb -> PG c s ->
+  (match o with OReopen => id_drift c s = false | _ => True end) ->
   B + N.of_nat (length (offered o)) <= u64_max -> Bb + sum_len (offered o) <= u64_max ->
-  let '(s', r) := step (env_of c Strict be) s o in
-  c01_step_ok g o r = true /\ c15_step_ok g o r = true /\
-  G c s' (ledger_step g o r) (B + N.of_nat (length (offered o))) (Bb + sum_len (offered o)).
+  c01_step_ok g o (snd (step (env_of c Strict be) s o)) = true /\
+  c15_step_ok g o (snd (step (env_of c Strict be) s o)) = true /\
+  G c (fst (step (env_of c Strict be) s o)) (ledger_step g o (snd (step (env_of c Strict be) s o)))
+    (B + N.of_nat (length (offered o))) (Bb + sum_len (offered o)) /\
+  PG c (fst (step (env_of c Strict be) s o)).
 Proof.
-  intros Hc HG Hk HB HBb. destruct o as [t e | t es | t ck | t maxb ck start | t | ];
-    try (apply G_step; auto; exact I).
-  cbn [step env_of v_cfg]. split; [reflexivity|]. split; [reflexivity|]. cbn [ledger_step offered length sum_len fold_right].
-  replace (B + N.of_nat 0) with B by lia. replace (Bb + 0) with Bb by lia. now apply G_reopen.
+  intros Hc HG Hpg Hk HB HBb.
+  assert (Hnr : o <> OReopen -> op_ok c o) by (destruct o; intros H; try exact I; congruence).
+  destruct o as [t e | t es | t ck | t maxb ck start | t | ].
+  1-5: (pose proof (G_step c be s g B Bb _ Hc HG (Hnr ltac:(discriminate)) HB HBb) as Hs;
+        pose proof (PG_step c be s g B Bb _ Hc HG Hpg (Hnr ltac:(discriminate)) HB HBb) as Hp;
+        destruct (step (env_of c Strict be) s _) as [s' r]; cbn [fst snd] in *;
+        destruct Hs as (A1 & A2 & A3); auto).
+  cbn [step env_of v_cfg fst snd]. split; [reflexivity|]. split; [reflexivity|]. cbn [ledger_step offered length sum_len fold_right].
+  replace (B + N.of_nat 0) with B by lia. replace (Bb + 0) with Bb by lia. now apply G_reopen_pg.
 Qed.
 
 Theorem restart_refines_queue c be : cfg_ok c -> forall ops s g B Bb,
-  G c s g B Bb -> outside_known (env_of c Strict be) s ops = true ->
+  G c s g B Bb -> PG c s -> outside_known (env_of c Strict be) s ops = true ->
   B + N.of_nat (length (offered_all ops)) <= u64_max -> Bb + sum_len (offered_all ops) <= u64_max ->
   c01_ok_from g (trace (env_of c Strict be) s ops) = true /\
   c15_ok_from g (trace (env_of c Strict be) s ops) = true.
 Proof.
-  intros Hc. induction ops as [|o r IH]; intros s g B Bb HG Hout HB HBb; [cbn; auto|].
+  intros Hc. induction ops as [|o r IH]; intros s g B Bb HG Hpg Hout HB HBb; [cbn; auto|].
   cbn [outside_known] in Hout. apply andb_true_iff in Hout. destruct Hout as (Ho & Hout).
   cbn [offered_all] in HB, HBb. rewrite app_length, Nat2N.inj_add in HB. rewrite sum_len_app in HBb.
-  assert (Hk : match o with OReopen => restart_known c s = false | _ => True end).
+  assert (Hk : match o with OReopen => id_drift c s = false | _ => True end).
   { destruct o; try exact I. cbn [env_of v_cfg] in Ho. now apply negb_true_iff in Ho. }
-  pose proof (G_step_r c be s g B Bb o Hc HG Hk ltac:(lia) ltac:(lia)) as Hstep.
-  cbn [trace]. destruct (step (env_of c Strict be) s o) as [s' res]. cbn [fst] in Hout.
-  destruct Hstep as (H1 & H2 & HG').
-  destruct (IH s' _ _ _ HG' Hout ltac:(lia) ltac:(lia)) as (I1 & I2).
+  pose proof (G_step_r c be s g B Bb o Hc HG Hpg Hk ltac:(lia) ltac:(lia)) as Hstep.
+  cbn [trace]. destruct (step (env_of c Strict be) s o) as [s' res]. cbn [fst snd] in *.
+  destruct Hstep as (H1 & H2 & HG' & Hpg').
+  destruct (IH s' _ _ _ HG' Hpg' Hout ltac:(lia) ltac:(lia)) as (I1 & I2).
   cbn [c01_ok_from c15_ok_from]. rewrite H1, H2, I1, I2. auto.
 Qed.
 
@@ -53,36 +61,57 @@ Corollary restart_from_init c be ops : cfg_ok c ->
   c01_ok (trace (env_of c Strict be) init ops) = true /\ c15_ok (trace (env_of c Strict be) init ops) = true.
 Proof.
   intros Hc Hout HB HBb. unfold c01_ok, c15_ok. pose proof Hc as (_ & Hb0 & _).
-  apply (restart_refines_queue c be Hc ops init [] 0 0 (G_init c Hb0) Hout); lia.
+  apply (restart_refines_queue c be Hc ops init [] 0 0 (G_init c Hb0) (PG_init c) Hout); lia.
 Qed.
 
 (* the ledger the queue specification keeps along a trace *)
 Fixpoint ledger_run (g : lg) (tr : list (op * result)) : lg :=
   match tr with [] => g | (o, r) :: rest => ledger_run (ledger_step g o r) rest end.
 
-(* the invariant along the run: goal (1) (position invariant P3 inside G) and goal (3) *)
+(* the invariant along the run: goal (1) (position invariant P3 inside G, every position good: PG) and goal (3) *)
 Theorem G_reachable c be : cfg_ok c -> forall ops s g B Bb,
-  G c s g B Bb -> outside_known (env_of c Strict be) s ops = true ->
+  G c s g B Bb -> PG c s -> outside_known (env_of c Strict be) s ops = true ->
   B + N.of_nat (length (offered_all ops)) <= u64_max -> Bb + sum_len (offered_all ops) <= u64_max ->
-  exists B' Bb', G c (exec (env_of c Strict be) s ops) (ledger_run g (trace (env_of c Strict be) s ops)) B' Bb'.
+  exists B' Bb', G c (exec (env_of c Strict be) s ops) (ledger_run g (trace (env_of c Strict be) s ops)) B' Bb' /\
+                 PG c (exec (env_of c Strict be) s ops).
 Proof.
-  intros Hc. induction ops as [|o r IH]; intros s g B Bb HG Hout HB HBb; [exists B, Bb; exact HG|].
+  intros Hc. induction ops as [|o r IH]; intros s g B Bb HG Hpg Hout HB HBb; [exists B, Bb; split; assumption|].
   cbn [outside_known] in Hout. apply andb_true_iff in Hout. destruct Hout as (Ho & Hout).
   cbn [offered_all] in HB, HBb. rewrite app_length, Nat2N.inj_add in HB. rewrite sum_len_app in HBb.
-  assert (Hk : match o with OReopen => restart_known c s = false | _ => True end).
+  assert (Hk : match o with OReopen => id_drift c s = false | _ => True end).
   { destruct o; try exact I. cbn [env_of v_cfg] in Ho. now apply negb_true_iff in Ho. }
-  pose proof (G_step_r c be s g B Bb o Hc HG Hk ltac:(lia) ltac:(lia)) as Hstep.
-  cbn [exec trace]. destruct (step (env_of c Strict be) s o) as [s' res]. cbn [fst ledger_run] in *.
-  destruct Hstep as (_ & _ & HG'). apply (IH s' _ _ _ HG' Hout); lia.
+  pose proof (G_step_r c be s g B Bb o Hc HG Hpg Hk ltac:(lia) ltac:(lia)) as Hstep.
+  cbn [exec trace]. destruct (step (env_of c Strict be) s o) as [s' res]. cbn [fst snd ledger_run] in *.
+  destruct Hstep as (_ & _ & HG' & Hpg'). apply (IH s' _ _ _ HG' Hpg' Hout); lia.
 Qed.
 
 Corollary G_from_init c be ops : cfg_ok c ->
   N.of_nat (length (offered_all ops)) <= u64_max -> sum_len (offered_all ops) <= u64_max ->
   outside_known (env_of c Strict be) init ops = true ->
-  exists B' Bb', G c (exec (env_of c Strict be) init ops) (ledger_run [] (trace (env_of c Strict be) init ops)) B' Bb'.
+  exists B' Bb', G c (exec (env_of c Strict be) init ops) (ledger_run [] (trace (env_of c Strict be) init ops)) B' Bb' /\
+                 PG c (exec (env_of c Strict be) init ops).
 Proof.
   intros Hc HB HBb Ho. pose proof Hc as (_ & Hb0 & _).
-  apply (G_reachable c be Hc ops init [] 0 0 (G_init c Hb0) Ho); lia.
+  apply (G_reachable c be Hc ops init [] 0 0 (G_init c Hb0) (PG_init c) Ho); lia.
+Qed.
+
+(* no reachable state has a stale persisted position: the class "stale provisional tail position"
+   is empty since the repair (every history incl. restarts outside block-id drift) *)
+Corollary stale_tail_never c be ops : cfg_ok c ->
+  N.of_nat (length (offered_all ops)) <= u64_max -> sum_len (offered_all ops) <= u64_max ->
+  outside_known (env_of c Strict be) init ops = true ->
+  forall t p, ts_index (get_ts (exec (env_of c Strict be) init ops) t) = Some p ->
+              stale_p (memne (get_ts (exec (env_of c Strict be) init ops) t)) p = false.
+Proof.
+  intros Hc HB HBb Ho. destruct (G_from_init c be ops Hc HB HBb Ho) as (B' & Bb' & _ & Hpg). now apply (PG_nonstale c).
+Qed.
+
+Lemma outside_known_split v : forall ops1 s0, outside_known v s0 (ops1 ++ [OReopen]) = true ->
+  outside_known v s0 ops1 = true /\ id_drift (v_cfg v) (exec v s0 ops1) = false.
+Proof.
+  induction ops1 as [|o r IH]; intros s0 H; cbn [app outside_known exec] in *.
+  - rewrite andb_true_r in H. split; [reflexivity|now apply negb_true_iff in H].
+  - apply andb_true_iff in H. destruct H as (H1 & H2). destruct (IH _ H2) as (A & B0). rewrite H1, A. auto.
 Qed.
 
 (* goal (2) from init: a restart at the end of any history (with or without earlier restarts) *)
@@ -96,30 +125,17 @@ Corollary restart_preserves_cursor c be ops : cfg_ok c ->
     cnt (get_ts (reopen c s) t) = cnt (get_ts s t) /\
     cnt (get_ts (reopen c s) t) = N.of_nat (length (unread c (nrm x (get_ts (reopen c s) t)))).
 Proof.
-  intros Hc Hout HB HBb. cbn zeta. pose proof Hc as (_ & Hb0 & _).
-  assert (Hsplit : forall ops1 s0, outside_known (env_of c Strict be) s0 (ops1 ++ [OReopen]) = true ->
-            outside_known (env_of c Strict be) s0 ops1 = true /\ restart_known c (exec (env_of c Strict be) s0 ops1) = false).
-  { induction ops1 as [|o r IH]; intros s0 H; cbn [app outside_known exec] in *.
-    - rewrite andb_true_r in H. cbn [env_of v_cfg] in H. split; [reflexivity|now apply negb_true_iff in H].
-    - apply andb_true_iff in H. destruct H as (H1 & H2). destruct (IH _ H2) as (A & B0). rewrite H1, A. auto. }
-  destruct (Hsplit ops init Hout) as (Hout1 & Hk).
-  destruct (G_reachable c be Hc ops init [] 0 0 (G_init c Hb0) Hout1 ltac:(lia) ltac:(lia)) as (B' & Bb' & HG).
-  intros t x y. exact (reopen_cursor c _ _ B' Bb' Hc HG Hk t x y).
+  intros Hc Hout HB HBb. cbn zeta.
+  destruct (outside_known_split _ ops init Hout) as (Hout1 & Hk). cbn [env_of v_cfg] in Hk.
+  destruct (G_from_init c be ops Hc HB HBb Hout1) as (B' & Bb' & HG & Hpg).
+  intros t x y. exact (reopen_cursor_pg c _ _ B' Bb' Hc HG Hpg Hk t x y).
 Qed.
 
 (* C09 between operations: a crash between two operations leaves the disk image and the persisted
-   positions of that moment; the fresh process is [reopen].  In StrictlyAtOnce mode, outside the
-   known classes, the consumer of every topic resumes exactly behind the entries whose consuming
+   positions of that moment; the fresh process is [reopen].  In StrictlyAtOnce mode, outside
+   block-id drift, the consumer of every topic resumes exactly behind the entries whose consuming
    reads had returned: what is unread after the restart is the acknowledged stream minus its first
    [l_del] entries, where [l_del] counts the entries returned by consuming reads so far. *)
-Lemma outside_known_split v : forall ops1 s0, outside_known v s0 (ops1 ++ [OReopen]) = true ->
-  outside_known v s0 ops1 = true /\ restart_known (v_cfg v) (exec v s0 ops1) = false.
-Proof.
-  induction ops1 as [|o r IH]; intros s0 H; cbn [app outside_known exec] in *.
-  - rewrite andb_true_r in H. split; [reflexivity|now apply negb_true_iff in H].
-  - apply andb_true_iff in H. destruct H as (H1 & H2). destruct (IH _ H2) as (A & B0). rewrite H1, A. auto.
-Qed.
-
 Theorem crash_between_operations_strict c be ops : cfg_ok c ->
   outside_known (env_of c Strict be) init (ops ++ [OReopen]) = true ->
   N.of_nat (length (offered_all ops)) <= u64_max -> sum_len (offered_all ops) <= u64_max ->
@@ -131,10 +147,10 @@ Theorem crash_between_operations_strict c be ops : cfg_ok c ->
     unread c (nrm x (get_ts (reopen c s) t)) = skipn (l_del (lget g t)) (l_app (lget g t)) /\
     cnt (get_ts (reopen c s) t) = N.of_nat (length (l_app (lget g t)) - l_del (lget g t)).
 Proof.
-  intros Hc Hout HB HBb. cbn zeta. pose proof Hc as (_ & Hb0 & _).
+  intros Hc Hout HB HBb. cbn zeta.
   destruct (outside_known_split _ ops init Hout) as (Hout1 & Hk). cbn [env_of v_cfg] in Hk.
-  destruct (G_reachable c be Hc ops init [] 0 0 (G_init c Hb0) Hout1 ltac:(lia) ltac:(lia)) as (B' & Bb' & HG).
-  pose proof (G_reopen c _ _ B' Bb' Hc HG Hk) as (_ & _ & _ & _ & Hall').
+  destruct (G_from_init c be ops Hc HB HBb Hout1) as (B' & Bb' & HG & Hpg).
+  destruct (G_reopen_pg c _ _ B' Bb' Hc HG Hpg Hk) as ((_ & _ & _ & _ & Hall') & _).
   intros t x. destruct (Hall' t) as (_ & Hx). destruct (Hx x) as (Hti & _ & Hdl & Hs & Hu & _).
   rewrite nrm_stream in Hs. split; [exact Hdl|]. split; [exact Hs|]. split; [exact Hu|].
   pose proof (ti_cnt _ _ _ Hti) as C. unfold cnt in C. rewrite nrm_count in C. unfold cnt. rewrite C, Hu, skipn_length. reflexivity.
